@@ -113,6 +113,13 @@ mutant "harmless: make with a larger capacity"               harmless hash.go 's
 mutant "harmless: zero entry spelled out"                    harmless hash.go 's/(func \(h \*hash\) reset\(\) \{\n\tfor i := range h\.table \{\n)\t\th\.table\[i\] = hashEntry\{\}/${1}\t\th.table[i] = hashEntry{pos: 0, value: 0}/'
 mutant "harmless: shiftOffsets arms swapped"                 harmless hash.go 's/if e\.pos < delta \{\n\t\t\th\.table\[i\] = hashEntry\{\}\n\t\t\} else \{\n\t\t\th\.table\[i\]\.pos = e\.pos - delta\n\t\t\}/if e.pos >= delta {\n\t\t\th.table[i].pos = e.pos - delta\n\t\t} else {\n\t\t\th.table[i] = hashEntry{}\n\t\t}/'
 mutant "harmless: init range checks via De Morgan"           harmless hash.go 's/(func \(h \*hash\) init.*?)if !\(2 <= inputLen && inputLen <= 8\) \{/${1}if inputLen < 2 || inputLen > 8 {/s'
+# --- the normalisations of the robustness round (notes/robust.md): zeroing loop / clear / counting loop
+mutant "harmless: reset with the builtin clear"              harmless hash.go 's/(func \(h \*hash\) reset\(\) \{\n)\tfor i := range h\.table \{\n\t\th\.table\[i\] = hashEntry\{\}\n\t\}\n/${1}\tclear(h.table)\n/'
+mutant "harmless: reset as a counting loop"                  harmless hash.go 's/(func \(h \*hash\) reset\(\) \{\n)\tfor i := range h\.table \{/${1}\tfor i := 0; i < len(h.table); i++ {/'
+mutant "hash.reset: counting loop that stops one short"      proof hash.go 's/(func \(h \*hash\) reset\(\) \{\n)\tfor i := range h\.table \{/${1}\tfor i := 0; i < len(h.table)-1; i++ {/'
+mutant "hash.reset: counting loop that starts at 1"          proof hash.go 's/(func \(h \*hash\) reset\(\) \{\n)\tfor i := range h\.table \{/${1}\tfor i := 1; i < len(h.table); i++ {/'
+mutant "bucketHash.reset: clear(buckets) twice, indexes kept" proof bucket_hash.go 's/\tfor i := range bh\.indexes \{\n\t\tbh\.indexes\[i\] = 0\n\t\}\n/\tclear(bh.buckets)\n/'
+mutant "hash.shiftOffsets: element pointer to entry 0      " proof hash.go 's/for i, e := range h\.table \{\n\t\tif e\.pos < delta \{\n\t\t\th\.table\[i\] = hashEntry\{\}/for i, e := range h.table {\n\t\tif e.pos < delta {\n\t\t\tp := &h.table[0]\n\t\t\t*p = hashEntry{}/'
 # --- constructs the value model of slices cannot express: the extractor must refuse
 mutant "alias: reset through a second slice variable"        extract hash.go 's/(func \(h \*hash\) reset\(\) \{\n)\tfor i := range h\.table \{\n\t\th\.table\[i\] = hashEntry\{\}/${1}\tt := h.table\n\tfor i := range t {\n\t\tt[i] = hashEntry{}/'
 mutant "range loop re-slices the table it iterates over"     extract hash.go 's/(func \(h \*hash\) reset\(\) \{\n\tfor i := range h\.table \{\n)/${1}\t\th.table = h.table[:len(h.table)-i]\n/'
